@@ -174,7 +174,7 @@ func runC15(c *Ctx) {
 		c.mustFollowIter(fn, "broadcast rejected (not a Mempool error)", c.failEdges(gB), reply, "req.errChan <- err", nil, 1)
 		// the error replied on rejection is not nil-constant
 		for _, s := range c.failEdges(gB) {
-			ir.Walk(s.b, s.idx, ir.BackEdges(fn), func(in ssa.Instruction) bool {
+			ir.WalkCtx(s.b, s.idx, s.pred, ir.BackEdges(fn), func(in ssa.Instruction) bool {
 				if snd, ok := in.(*ssa.Send); ok && reply(in) {
 					c.verdict(!ir.IsNil(snd.X), c.nm(fn)+" | rejected broadcast is answered with the error", c.at(in), "non-nil reply", "a rejected broadcast is answered with nil (caller believes the transaction was accepted)", c.at(in))
 					return false
@@ -508,10 +508,12 @@ func runC15(c *Ctx) {
 				ratio = append(ratio, in)
 			}
 		})
-		okShape := len(ratio) == 1 && ratio[0].(*ssa.BinOp).Op == token.GEQ
-		c.verdict(okShape, c.nm(fn)+" | invalid ratio compared with `>=` against the threshold", c.P.Pos(fn.Pos()), "numInvalid/numPeersResponded >= qo.invalidTxThreshold", "the invalid-ratio comparison is missing or uses an operator other than >= (a ratio equal to the threshold must reject)", c.ats(ratio)...)
+		thr := loadsField(c.field("neutrino", "queryOptions", "invalidTxThreshold"))
+		isRatio := func(v ssa.Value) bool { q, ok := v.(*ssa.BinOp); return ok && q.Op == token.QUO }
+		gB, odd := relGuard("numInvalid/numPeersResponded >= threshold", fn, isRatio, thr, token.GEQ)
+		okShape := len(odd) == 0 && gB.found == 1
+		c.verdict(okShape, c.nm(fn)+" | invalid ratio compared with `>=` against the threshold", c.P.Pos(fn.Pos()), "numInvalid/numPeersResponded >= qo.invalidTxThreshold (in any equivalent form)", "the invalid-ratio comparison is missing or is not equivalent to ratio >= threshold (a ratio equal to the threshold must reject): "+join(odd), c.ats(ratio)...)
 		gA := equalIs("len(replies) vs len(rejections)", lenEq, true)
-		gB := cmpIs("numInvalid/numPeersResponded >= threshold", ratio, true)
 		g := guard{name: "all repliers rejected || invalid ratio >= threshold", sites: append(append([]guardSite{}, gA.sites...), gB.sites...), unchecked: append(gA.unchecked, gB.unchecked...)}
 		c.guarded(fn, g, 2, "return a broadcast error", nonNil, 2, gDominate)
 
